@@ -264,22 +264,31 @@ class Species(AtomCollection):
         """
         assert self._atoms is not None, "Can't set coordinates without atoms"
 
-        new_coords = np.asarray(value, dtype=float).reshape((-1, 3))  # N x 3
-        rmsd = calc_rmsd(coords1=new_coords, coords2=self.coordinates)
-
-        if rmsd > 1e-8:
-            self._clear_energies_gradient_hessian()
-
-        else:
-            # Energies are invariant to a rigid-body motion, but the gradient
-            # and Hessian are only invariant to a translation
-            shift = new_coords - np.asarray(self.coordinates)
-            if not np.allclose(shift, shift[0], rtol=0.0, atol=1e-8):
-                self.gradient = None
-                self.hessian = None
-
+        self._reset_properties_for(new_coordinates=value)
         self._atoms.coordinates = val.Coordinates(value)
         return
+
+    def _reset_properties_for(self, new_coordinates) -> None:
+        """
+        Reset the energies, gradient and Hessian that are not valid for a
+        set of new coordinates. Energies are invariant to a rigid-body
+        motion, but the gradient and Hessian only to a translation
+        """
+        new_coords = np.asarray(new_coordinates, dtype=float).reshape((-1, 3))
+        old_coords = np.asarray(self.coordinates, dtype=float)
+
+        if (
+            new_coords.shape != old_coords.shape
+            or calc_rmsd(coords1=new_coords, coords2=old_coords) > 1e-8
+        ):
+            return self._clear_energies_gradient_hessian()
+
+        shift = new_coords - old_coords
+        if not np.allclose(shift, shift[0], rtol=0.0, atol=1e-8):
+            self.gradient = None
+            self.hessian = None
+
+        return None
 
     def _clear_energies_gradient_hessian(self) -> None:
         logger.info(f"Geometry changed- resetting energies of {self.name}")
@@ -992,9 +1001,21 @@ class Species(AtomCollection):
         ):
             raise ValueError("Invalid mapping. Must be 1-1 for all atoms")
 
-        self._atoms = Atoms(
-            [self.atoms[i] for i in sorted(mapping, key=lambda k: mapping[k])]
-        )
+        order = sorted(mapping, key=lambda k: mapping[k])
+        self._atoms = Atoms([self.atoms[i] for i in order])
+
+        # The gradient and Hessian rows must follow their atoms
+        if self._grad is not None:
+            self._grad = self._grad[order]
+
+        if self._hess is not None:
+            idxs = [3 * i + k for i in order for k in range(3)]
+            self._hess = Hessian(
+                np.asarray(self._hess)[np.ix_(idxs, idxs)],
+                units=self._hess.units,
+                atoms=self._atoms,
+                functional=self._hess.functional,
+            )
 
         if self.graph is None:
             return  # No need to re-order a graph that is not set
@@ -1087,8 +1108,7 @@ class Species(AtomCollection):
         coords += origin
 
         # Set the new coordinates of each atom
-        for atom, new_coord in zip(self.atoms, coords):
-            atom.coord = new_coord
+        self._set_rigidly_moved_coordinates(coords)
 
         # The gradient and Hessian must rotate with the frame
         if self._grad is not None:
@@ -1096,9 +1116,22 @@ class Species(AtomCollection):
 
         if self._hess is not None:
             full_rot_mat = np.kron(np.eye(self.n_atoms), rot_mat)
-            self._hess[:] = np.linalg.multi_dot(
-                (full_rot_mat, np.asarray(self._hess), full_rot_mat.T)
+            # NOTE: A new Hessian, so no cached properties are retained
+            self._hess = Hessian(
+                np.linalg.multi_dot(
+                    (full_rot_mat, np.asarray(self._hess), full_rot_mat.T)
+                ),
+                units=self._hess.units,
+                atoms=self.atoms,
+                functional=self._hess.functional,
             )
+
+        return None
+
+    def _set_rigidly_moved_coordinates(self, coords: np.ndarray) -> None:
+        """Set coordinates that differ from the current by a rigid motion"""
+        for atom, new_coord in zip(self.atoms, coords):
+            atom.coord = new_coord
 
         return None
 
